@@ -911,9 +911,18 @@ func (lw *LoopWorld) Restart() (*LoopWorld, []byte, error) {
 	if err != nil {
 		return nil, nil, err
 	}
-	if _, err := app2.InitChain(&abci.RequestInitChain{ChainId: chainID, ConsensusParams: sims.DefaultConsensusParams, AppStateBytes: exp.AppState,
-		Time: loopTime(exp.Height - 1), InitialHeight: exp.Height}); err != nil {
-		return nil, exp.AppState, fmt.Errorf("InitChain from the exported genesis: %w", err)
+	var ierr error
+	func() {
+		defer func() {
+			if r := recover(); r != nil {
+				ierr = fmt.Errorf("panic: %v", r) // module InitGenesis functions panic on a genesis they refuse
+			}
+		}()
+		_, ierr = app2.InitChain(&abci.RequestInitChain{ChainId: chainID, ConsensusParams: sims.DefaultConsensusParams, AppStateBytes: exp.AppState,
+			Time: loopTime(exp.Height - 1), InitialHeight: exp.Height})
+	}()
+	if ierr != nil {
+		return nil, exp.AppState, fmt.Errorf("InitChain from the exported genesis: %w", ierr)
 	}
 	w2 := *lw.World
 	w2.App = app2
